@@ -41,11 +41,13 @@ const (
 	opRevert
 	opFinalise
 	opTxStart
+	opIntermediateRoot // (20 rules): Finalise + root; root compared with the reference root
+	opPeek             // (21 a k): one read (GetState, GetCommittedState, Exist); fills read caches only
 )
 
 var opNames = []string{"createAccount", "createContract", "addBalance", "subBalance", "setBalance", "setNonce",
 	"setCode", "setState", "setTransient", "selfDestruct", "selfDestruct6780", "addAddress", "addSlot",
-	"addRefund", "subRefund", "addLog", "snapshot", "revert", "finalise", "txStart"}
+	"addRefund", "subRefund", "addLog", "snapshot", "revert", "finalise", "txStart", "intermediateRoot", "peek"}
 
 var (
 	w256   = new(big.Int).Lsh(big.NewInt(1), 256)
@@ -165,9 +167,12 @@ func decodeCase(c Sx) ([]dbAcct, []op, bool) {
 			o.v = AsBig(f[1])
 		case opSnapshot:
 			need(0)
-		case opFinalise:
+		case opFinalise, opIntermediateRoot:
 			need(1)
 			o.rules = AsInt(f[1])
+		case opPeek:
+			need(2)
+			o.a, o.k = AsInt(f[1]), AsInt(f[2])
 		case opTxStart:
 			need(7)
 			o.th, o.ti, o.rules, o.sender, o.coinbase = AsInt(f[1]), AsInt(f[2]), AsInt(f[3]), AsInt(f[4]), AsInt(f[5])
@@ -211,8 +216,10 @@ func encodeOp(o op) Sx {
 		return L(I(int64(o.tag)), Big(o.v))
 	case opSnapshot:
 		return L(I(int64(o.tag)))
-	case opFinalise:
+	case opFinalise, opIntermediateRoot:
 		return L(I(int64(o.tag)), I(int64(o.rules)))
+	case opPeek:
+		return L(I(int64(o.tag)), I(int64(o.a)), I(int64(o.k)))
 	case opTxStart:
 		dst := SL{}
 		if o.dst >= 0 {
@@ -435,7 +442,7 @@ func (r *ref) step(o op) int {
 			}
 		}
 		return 1
-	case opFinalise:
+	case opFinalise, opIntermediateRoot:
 		is158, isAms := o.rules&1 != 0, o.rules&2 != 0
 		for a, x := range c.accts {
 			touched := c.touched[a] || (r.sticky && a == ripemd)
@@ -572,7 +579,7 @@ func (g *guardState) before(r *ref, o op) {
 		if len(r.stack) != 0 || len(r.cur.touched) != 0 {
 			g.unguarded = "txStart-mid-tx"
 		}
-	case opFinalise:
+	case opFinalise, opIntermediateRoot:
 		for a, x := range r.cur.accts {
 			touched := r.cur.touched[a] || (r.sticky && a == ripemd)
 			if x.created && !touched {
@@ -586,7 +593,7 @@ func (g *guardState) before(r *ref, o op) {
 }
 
 func (g *guardState) after(rBefore map[int]bool, r *ref, o op) {
-	if o.tag == opFinalise {
+	if o.tag == opFinalise || o.tag == opIntermediateRoot {
 		for a := range rBefore {
 			if r.cur.accts[a] == nil {
 				g.originOK[a] = true
@@ -628,6 +635,42 @@ func buildState(db []dbAcct) *state.StateDB {
 		panic(err)
 	}
 	return st2
+}
+
+// refRoot is the oracle for IntermediateRoot: the root of a from-scratch build of the
+// reference model's accounts (nonce, balance, code, non-zero storage) in a fresh database,
+// one transaction from the empty state, no deletions (Rules{}: empty accounts are kept).
+func refRoot(r *ref) common.Hash {
+	st, err := state.New(types.EmptyRootHash, state.NewDatabaseForTesting())
+	if err != nil {
+		panic(err)
+	}
+	addrs := make([]int, 0, len(r.cur.accts))
+	for a := range r.cur.accts {
+		addrs = append(addrs, a)
+	}
+	sort.Ints(addrs)
+	for _, ai := range addrs {
+		x := r.cur.accts[ai]
+		a := addrOf(ai)
+		st.CreateAccount(a)
+		st.SetNonce(a, x.nonce, tracing.NonceChangeUnspecified)
+		st.SetBalance(a, uint256.MustFromBig(x.bal), tracing.BalanceChangeUnspecified)
+		if x.code != 0 {
+			st.SetCode(a, codeOf(x.code), tracing.CodeChangeUnspecified)
+		}
+		ks := make([]int, 0, len(x.stor))
+		for k := range x.stor {
+			ks = append(ks, k)
+		}
+		sort.Ints(ks)
+		for _, k := range ks {
+			if x.stor[k].Sign() != 0 {
+				st.SetState(a, hashOf(k), wordOf(x.stor[k]))
+			}
+		}
+	}
+	return st.IntermediateRoot(params.Rules{})
 }
 
 func catchPanic(f func()) (panicked bool) {
@@ -786,26 +829,42 @@ func run(c Sx) Result {
 	var fails []string
 	obs := SL{}
 	tags := map[string]bool{}
-	depthMax, reverts, finalises, nested := 0, 0, 0, 0
+	depthMax, reverts, finalises, nested, roots := 0, 0, 0, 0, 0
 	for i, o := range ops {
 		g.before(rf, o)
 		before := map[int]bool{}
 		for a := range rf.cur.accts {
 			before[a] = true
 		}
-		w := applyOp(st, o)
+		var w int
+		var x Sx // the observation of the call itself
+		var root common.Hash
+		switch o.tag {
+		case opIntermediateRoot:
+			root = st.IntermediateRoot(rulesOf(o.rules))
+			x = L(I(0), B(root[:]))
+		case opPeek:
+			a, h := addrOf(o.a), hashOf(o.k)
+			x = L(Big(st.GetState(a, h).Big()), Big(st.GetCommittedState(a, h).Big()), I(b2i(st.Exist(a))))
+		default:
+			w = applyOp(st, o)
+			x = I(int64(w))
+		}
 		var d Sx
 		last := i == len(ops)-1
-		if quiet {
+		switch {
+		case o.tag == opPeek:
+			obs = append(obs, x)
+		case quiet:
 			// no getter is called between ops: read caches (code, origin storage) stay as the ops left them
-			obs = append(obs, I(int64(w)))
-			if last {
-				d = dumpImpl(st, &fails)
-				obs = append(obs, d)
-			}
-		} else {
+			obs = append(obs, x)
+		default:
 			d = dumpImpl(st, &fails)
-			obs = append(obs, L(I(int64(w)), d))
+			obs = append(obs, L(x, d))
+		}
+		if quiet && last {
+			d = dumpImpl(st, &fails)
+			obs = append(obs, d)
 		}
 		wr := rf.step(o)
 		g.after(before, rf, o)
@@ -824,9 +883,28 @@ func run(c Sx) Result {
 					nested++
 				}
 			}
-		case opFinalise:
+		case opFinalise, opIntermediateRoot:
 			finalises++
 			tags[fmt.Sprintf("rules%x", o.rules)] = true
+		}
+		if g.unguarded == "" && len(fails) == 0 {
+			switch o.tag {
+			case opIntermediateRoot:
+				roots++
+				if want := refRoot(rf); root != want {
+					fails = append(fails, fmt.Sprintf("op %d (intermediateRoot): root %x differs from the root %x of a from-scratch build of the reference model's accounts", i, root[:6], want[:6]))
+				}
+			case opPeek:
+				rx := newRAcct()
+				ex := int64(0)
+				if y := rf.cur.accts[o.a]; y != nil {
+					rx, ex = y, 1
+				}
+				want := L(Big(sval(rx.stor, o.k)), Big(sval(rx.cstor, o.k)), I(ex))
+				if String(x) != String(want) {
+					fails = append(fails, fmt.Sprintf("op %d (peek %d %d): read %s, reference %s", i, o.a, o.k, String(x), String(want)))
+				}
+			}
 		}
 		if g.unguarded == "" && len(fails) == 0 {
 			if wr != w {
@@ -857,13 +935,14 @@ func run(c Sx) Result {
 	}
 	tags[fmt.Sprintf("depth%d", depthMax)] = true
 	tags[fmt.Sprintf("txs%d", min(finalises, 6))] = true
+	tags[fmt.Sprintf("roots%d", min(roots, 4))] = true
 	if nested > 0 {
 		tags["nested-revert"] = true
 	}
 	for t := range tags {
 		res.Tags = append(res.Tags, t)
 	}
-	res.NonTrivial = reverts >= 1 && finalises >= 1 && len(ops) >= 8
+	res.NonTrivial = (reverts >= 1 || roots >= 1) && finalises >= 1 && len(ops) >= 8
 	if len(fails) > 0 {
 		if len(fails) > 3 {
 			fails = fails[:3]
@@ -912,14 +991,18 @@ func randU64(r *Rng) *big.Int {
 	}
 }
 
-func genDB(r *Rng) []dbAcct {
+func genDB(r *Rng, rich bool) []dbAcct {
 	var db []dbAcct
 	for a := 1; a <= 4; a++ {
 		if !r.Chance(3, 5) {
 			continue
 		}
 		d := dbAcct{addr: a, bal: new(big.Int)}
-		switch r.Intn(4) {
+		kind := r.Intn(4)
+		if rich && r.Bool() {
+			kind = 3 // contracts with storage on disk
+		}
+		switch kind {
 		case 0: // empty account (pre-EIP-158 leftover)
 		case 1: // balance only
 			d.bal = randWord(r)
@@ -939,7 +1022,7 @@ func genDB(r *Rng) []dbAcct {
 				}
 			}
 		}
-		if r.Chance(1, 8) { // storage without code (possible pre-7610)
+		if r.Chance(1, 8) || (rich && d.code == 0 && r.Chance(1, 3)) { // storage without code (possible pre-7610)
 			d.stor = append(d.stor[:0], [2]*big.Int{big.NewInt(int64(r.Intn(4))), big.NewInt(int64(1 + r.Intn(5)))})
 		}
 		db = append(db, d)
@@ -962,12 +1045,29 @@ func encodeDB(db []dbAcct) Sx {
 // genHistory produces one history; guarded=true keeps every op inside the guards
 // (the reference is then the specification); guarded=false may step outside
 // (CreateContract never followed by a touch, raw SelfDestruct under Amsterdam rules).
-func genHistory(r *Rng, guarded bool, long bool, quiet bool) Sx {
+func genHistory(r *Rng, guarded bool, long bool, quiet bool, scen bool) Sx {
 	rs := ruleSets[r.Intn(len(ruleSets))]
-	var db []dbAcct
-	if r.Bool() || quiet {
-		db = genDB(r)
+	if scen && r.Chance(2, 3) {
+		rs = ruleSets[r.Intn(2)] // pre-Cancun: SelfDestruct removes contracts that have storage on disk
 	}
+	var db []dbAcct
+	if r.Bool() || quiet || scen {
+		db = genDB(r, scen || r.Chance(1, 3))
+	}
+	// where roots are computed: 0 = only at the end of the block (post-Byzantium flow), 1 = after
+	// every transaction (pre-Byzantium receipts), 2 = at random transaction boundaries
+	rootMode := r.Intn(3)
+	// on-disk storage per address (the former incarnation once the account has been deleted)
+	disk := map[int]map[int]*big.Int{}
+	for _, d := range db {
+		for _, sv := range d.stor {
+			if disk[d.addr] == nil {
+				disk[d.addr] = map[int]*big.Int{}
+			}
+			disk[d.addr][int(sv[0].Int64())] = sv[1]
+		}
+	}
+	phase := map[int]int{} // scenario per address with storage on disk: 0 alive, 1 deleted, 2 re-created
 	if quiet { // committed contracts whose code is never read before it is overwritten
 		for i := range db {
 			if db[i].code == 0 && r.Bool() {
@@ -993,6 +1093,9 @@ func genHistory(r *Rng, guarded bool, long bool, quiet bool) Sx {
 		ops = append(ops, o)
 	}
 	ntx := r.Range(1, 5)
+	if scen {
+		ntx = r.Range(3, 6)
+	}
 	use6780 := rs&8 != 0
 	for tx := 0; tx < ntx; tx++ {
 		start := op{tag: opTxStart, th: tx + 1, ti: tx, rules: rs, sender: r.Range(1, 4), coinbase: r.Range(1, 4), dst: -1}
@@ -1009,7 +1112,63 @@ func genHistory(r *Rng, guarded bool, long bool, quiet bool) Sx {
 		if tx > 0 || r.Chance(4, 5) {
 			emit(start)
 		}
+		if scen {
+			// delete an account that has storage on disk, re-create it in a later transaction of the
+			// same block, then read / write back the slots of the former incarnation
+			var focus []int
+			for a := range disk {
+				focus = append(focus, a)
+			}
+			sort.Ints(focus)
+			for _, a := range focus {
+				if !r.Chance(2, 3) {
+					continue
+				}
+				x := rf.cur.accts[a]
+				slots := make([]int, 0, 4)
+				for k := range disk[a] {
+					slots = append(slots, k)
+				}
+				sort.Ints(slots)
+				switch {
+				case x != nil && phase[a] != 2: // delete it
+					if rs&8 == 0 && r.Chance(2, 3) || rs&1 == 0 {
+						if rs&8 == 0 || !guarded {
+							emit(op{tag: opSelfDestruct, a: a})
+						}
+					} else { // EIP-158: make it empty (it is then touched)
+						emit(op{tag: opSetCode, a: a, v: new(big.Int)})
+						emit(op{tag: opSetNonce, a: a, v: new(big.Int)})
+						emit(op{tag: opSetBalance, a: a, v: new(big.Int)})
+					}
+					phase[a] = 1
+				case x == nil: // re-create it
+					if r.Bool() {
+						emit(op{tag: opCreateAccount, a: a})
+					}
+					emit(op{tag: opSetBalance, a: a, v: big.NewInt(int64(1 + r.Intn(9)))})
+					if r.Chance(3, 4) && len(slots) > 0 {
+						emit(op{tag: opSetState, a: a, k: slots[r.Intn(len(slots))], v: big.NewInt(int64(0x70 + r.Intn(9)))})
+					}
+					phase[a] = 2
+				case x != nil && phase[a] == 2: // probe the former incarnation's slots
+					for _, k := range slots {
+						switch r.Intn(4) {
+						case 0:
+							emit(op{tag: opPeek, a: a, k: k})
+						case 1:
+							emit(op{tag: opSetState, a: a, k: k, v: disk[a][k]}) // back to the old on-disk value
+						case 2:
+							emit(op{tag: opSetState, a: a, k: k, v: new(big.Int)})
+						}
+					}
+				}
+			}
+		}
 		nops := r.Range(4, 16)
+		if scen {
+			nops = r.Range(0, 6)
+		}
 		if long {
 			nops = r.Range(10, 40)
 		}
@@ -1078,7 +1237,11 @@ func genHistory(r *Rng, guarded bool, long bool, quiet bool) Sx {
 				}
 				emit(op{tag: opSubRefund, v: v})
 			case 18:
-				emit(op{tag: opAddLog, a: a, v: big.NewInt(int64(r.Intn(200)))})
+				if r.Bool() {
+					emit(op{tag: opAddLog, a: a, v: big.NewInt(int64(r.Intn(200)))})
+				} else {
+					emit(op{tag: opPeek, a: a, k: k})
+				}
 			case 19, 20, 21:
 				if len(rf.stack) < 6 {
 					emit(op{tag: opSnapshot})
@@ -1107,7 +1270,19 @@ func genHistory(r *Rng, guarded bool, long bool, quiet bool) Sx {
 				emit(op{tag: opSetNonce, a: a, v: big.NewInt(1)})
 			}
 		}
-		emit(op{tag: opFinalise, rules: rs})
+		lastTx := tx == ntx-1
+		switch {
+		case lastTx && r.Chance(5, 6), rootMode == 1, rootMode == 2 && r.Bool():
+			emit(op{tag: opIntermediateRoot, rules: rs})
+			if r.Chance(1, 10) {
+				emit(op{tag: opIntermediateRoot, rules: rs}) // idempotent
+			}
+		default:
+			emit(op{tag: opFinalise, rules: rs})
+			if r.Chance(1, 12) {
+				emit(op{tag: opIntermediateRoot, rules: rs}) // Finalise, then the root, as the block processor does
+			}
+		}
 	}
 	enc := SL{}
 	for _, o := range ops {
@@ -1127,13 +1302,16 @@ func gen(r *Rng, tier string, emit func(Sx)) {
 	for i := 0; i < n; i++ {
 		switch {
 		case i%10 == 9:
-			emit(genHistory(r.Fork(), false, false, false)) // adversarial stream: outside the guards
+			emit(genHistory(r.Fork(), false, false, false, i%20 == 19)) // adversarial stream: outside the guards
 		case i%10 == 8:
-			emit(genHistory(r.Fork(), true, true, false)) // long transactions
+			emit(genHistory(r.Fork(), true, true, false, false)) // long transactions
 		case i%10 == 7 || i%10 == 6:
-			emit(genHistory(r.Fork(), true, i%10 == 6, true)) // quiet: observed only at the end (unloaded caches)
+			emit(genHistory(r.Fork(), true, i%10 == 6, true, false)) // quiet: observed only at the end (unloaded caches)
+		case i%10 == 5 || i%10 == 4:
+			// delete / re-create / probe scenarios on accounts with storage on disk, half of them quiet
+			emit(genHistory(r.Fork(), true, false, i%10 == 5, true))
 		default:
-			emit(genHistory(r.Fork(), true, false, false))
+			emit(genHistory(r.Fork(), true, false, false, false))
 		}
 	}
 }
@@ -1141,12 +1319,17 @@ func gen(r *Rng, tier string, emit func(Sx)) {
 func main() {
 	Main(Family{
 		ID: "C13",
-		Rule: "random histories over addresses 1..4 (3 = RIPEMD-160) x slots 0..3: 1-5 transactions (SetTxContext+Prepare ... Finalise) of 3-14 ops " +
+		Rule: "random histories over addresses 1..4 (3 = RIPEMD-160) x slots 0..3: 1-6 transactions (SetTxContext+Prepare ... Finalise or IntermediateRoot) of 3-16 ops " +
 			"(every tenth history 10-40), nested snapshots to depth 6 with reverts to arbitrary live ids (and invalid ids), rule sets " +
 			"{pre-158, 158, Cancun/6780 discipline, Amsterdam}, from the empty state and from committed states (empty, balance-only, EOA, contract " +
-			"with storage, storage without code); values include 0, small, 2^256-k, 2^64-k. 90% guarded histories (reference model is the " +
-			"oracle after every op), 20% quiet histories from committed states with code, observed only by one dump at the end so that no getter fills the code/storage read caches between ops, 10% adversarial (CreateContract never touched, raw SelfDestruct under Amsterdam: model vs implementation only). " +
-			"Non-trivial: at least one successful revert, one Finalise and 8 ops; distinct = distinct case line.",
+			"with storage on disk, storage without code); values include 0, small, 2^256-k, 2^64-k. Transaction boundaries: per history roots are computed " +
+			"only at the end of the block / after every transaction / at random boundaries (so two Finalise calls with and without a root in between both occur), " +
+			"occasionally twice in a row; every IntermediateRoot is compared with the root of a from-scratch build of the reference accounts (oracle) and with " +
+			"the model root computed by the Coq trie + Keccak from the model's accounts. Streams: 40% generic guarded histories (reference model is the oracle after every op), " +
+			"20% delete/re-create scenarios on accounts with storage on disk (SelfDestruct or EIP-158 emptying in one transaction, re-creation in a later transaction of the same block, " +
+			"then reads of and writes back to the slots of the former incarnation incl. the old on-disk value; half of them quiet), 20% quiet histories from committed states with code, observed only by one dump at the end " +
+			"(plus single-slot peeks) so that no getter fills the code/storage read caches between ops, 10% long transactions, 10% adversarial (CreateContract never touched, raw SelfDestruct under Amsterdam: model vs implementation only). " +
+			"Non-trivial: at least one successful revert or one compared root, one Finalise/IntermediateRoot and 8 ops; distinct = distinct case line.",
 		Gen: gen,
 		Run: run,
 	})
